@@ -13,6 +13,16 @@
    [reads_avoid_passwords] is the decision procedure on the table; ConfigReadProofs.v proves that it implies
    non-interference for all configurations and all parameter strings.
 
+   Why a pattern can be accepted (viper lower-cases the key and splits it at every '.', and a hole can be
+   filled with ANY bytes -- dots, upper case, nothing):
+     - a pattern without holes denotes one path, which is computed and compared;
+     - [first_seg_safe]: the literal head contains a dot, so the first segment of every instance is that
+       literal segment, and it is not a section that holds passwords;
+     - [last_seg_safe]: the literal tail contains a dot, so the last segment of every instance is that literal
+       segment, and it is not "password"; for reads that return values BELOW the key two literal dots are
+       required as well, so that the key has at least three segments and nothing below it is a password path.
+   Everything else -- in particular "sasl."+x, "notifier."+x, x+".password", any PUnknown -- is rejected.
+
    Model only: no proofs here. *)
 Require Import List ZArith Bool String Ascii.
 Import ListNotations.
@@ -78,6 +88,21 @@ with agree_kids (p : list bytes) (ks ks' : kids) {struct ks} : Prop :=
 
 Definition agree_except_passwords (cfg cfg' : tree) : Prop := agree [] cfg cfg'.
 
+(* the configuration with every password value replaced by [f] of it (e.g. by a constant) *)
+Fixpoint set_pw (f : value -> value) (p : list bytes) (t : tree) {struct t} : tree :=
+  match t with
+  | Leaf v => if is_pw p then Leaf (f v) else Leaf v
+  | Node ks => Node (set_pw_kids f p ks)
+  end
+with set_pw_kids (f : value -> value) (p : list bytes) (ks : kids) {struct ks} : kids :=
+  match ks with
+  | KNil => KNil
+  | KCons k c r => KCons k (set_pw f (p ++ [lower k]) c) (set_pw_kids f p r)
+  end.
+
+Definition set_passwords (f : value -> value) (cfg : tree) : tree := set_pw f [] cfg.
+Definition erase_passwords (cfg : tree) : tree := set_passwords (fun _ => VStr []) cfg.
+
 (* ------------------------------------------------------------------------------------------------ *)
 (* semantics of a read-set table                                                                     *)
 (* ------------------------------------------------------------------------------------------------ *)
@@ -96,17 +121,6 @@ Fixpoint kid_leaves (ks : kids) : list (bytes * option value) :=
   | KCons k c r => (lower k, match c with Leaf v => Some v | Node _ => None end) :: kid_leaves r
   end.
 
-Definition read (cfg : tree) (k : rkind) (key : bytes) : rres :=
-  let n := cfg_get cfg key in
-  match k with
-  | KExists => ResBool (match n with Some _ => true | None => false end)
-  | KKeys => ResKeys (match n with Some (Node ks) => kid_keys ks | _ => [] end)
-  | KScalar => ResVal (match n with Some (Leaf v) => Some v | _ => None end)
-  | KChildren => ResKids (match n with Some (Node ks) => kid_leaves ks | _ => [] end)
-  | KSubtree => ResTree n
-  | KUnknown => ResNone
-  end.
-
 Definition renv := list (nat * list rres).
 
 Fixpoint env_get (env : renv) (i : nat) : list rres :=
@@ -118,6 +132,22 @@ Fixpoint env_get (env : renv) (i : nat) : list rres :=
 Section Sem.
   (* cast.ToString of a configuration value (used when a read value becomes part of another key) *)
   Variable to_string : value -> bytes.
+  (* cast.ToStringMap / cast.ToStringMapString applied to a SCALAR: spf13/cast parses a string value as a JSON
+     object, so GetStringMap*("a.b") on a string leaf can return keys (and values) taken from inside that string.
+     Whatever they return is a function of the leaf's value; the two oracles stand for these functions. *)
+  Variable leaf_keys : value -> list bytes.
+  Variable leaf_kids : value -> list (bytes * option value).
+
+  Definition read (cfg : tree) (k : rkind) (key : bytes) : rres :=
+    let n := cfg_get cfg key in
+    match k with
+    | KExists => ResBool (match n with Some _ => true | None => false end)
+    | KKeys => ResKeys (match n with Some (Node ks) => kid_keys ks | Some (Leaf v) => leaf_keys v | None => [] end)
+    | KScalar => ResVal (match n with Some (Leaf v) => Some v | _ => None end)
+    | KChildren => ResKids (match n with Some (Node ks) => kid_leaves ks | Some (Leaf v) => leaf_kids v | None => [] end)
+    | KSubtree => ResTree n
+    | KUnknown => ResNone
+    end.
 
   Definition elem_strings (ps : params) (env : renv) (e : pelem) : list bytes :=
     match e with
@@ -148,8 +178,10 @@ Section Sem.
     | r :: rest => eval_rows cfg ps (env ++ [(row_id r, eval_row cfg ps env r)]) rest
     end.
 
+  (* rows of the handler, plus the rows filed under "*": reads performed outside any handler (Configure, Start,
+     init, package-level initialisers), whose results may sit in package state that every handler can see *)
   Definition rows_of (tbl : list rrow) (handler : string) : list rrow :=
-    filter (fun r => String.eqb (row_handler r) handler) tbl.
+    filter (fun r => String.eqb (row_handler r) handler || String.eqb (row_handler r) "*") tbl.
 
   (* everything the handler can learn from the configuration *)
   Definition observe (tbl : list rrow) (cfg : tree) (handler : string) (ps : params) : renv :=
@@ -168,15 +200,39 @@ End Sem.
 Definition pat_known (pat : list pelem) : bool :=
   forallb (fun e => match e with PUnknown _ => false | _ => true end) pat.
 
+Definition is_fix (e : pelem) : bool := match e with PFix _ => true | _ => false end.
+
 Definition count_dots (s : bytes) : nat := List.length (filter (fun c => c =? dot) s).
 
+(* the literal text every instance of the pattern starts with *)
+Fixpoint lead (pat : list pelem) : bytes :=
+  match pat with
+  | PFix s :: r => bytes_of_string s ++ lead r
+  | _ => []
+  end.
+
+Definition in_pw_section (a : bytes) : bool := existsb (beq a) pw_sections.
+
+(* no password path is [path] itself or lies below it *)
+Definition path_below_ok (path : list bytes) : bool :=
+  match path with
+  | [] => false
+  | a :: _ => negb (in_pw_section a) || (Nat.leb 3 (List.length path) && negb (is_pw path))
+  end.
+
+(* the pattern starts with literal text that contains a dot and whose first segment is not a section that
+   holds passwords: whatever fills the holes, the first segment of the key is that literal segment *)
+Definition first_seg_safe (pat : list pelem) : bool :=
+  let l := lower (lead pat) in
+  Nat.ltb 0 (count_dots l) && negb (in_pw_section (hd [] (split_dots l))).
+
 (* the pattern ends with literal text that contains a dot and whose last segment is not "password":
-   whatever fills the holes, the last segment of the key is that literal segment *)
+   whatever fills the holes (dots, upper case, nothing), the last segment of the key is that literal segment *)
 Definition last_seg_safe (pat : list pelem) : bool :=
   match last pat (PUnknown EmptyString) with
   | PFix s =>
-      let b := bytes_of_string s in
-      Nat.ltb 0 (count_dots b) && negb (beq (lower (last (split_dots b) [])) pw_key)
+      let b := lower (bytes_of_string s) in
+      Nat.ltb 0 (count_dots b) && negb (beq (last (split_dots b) []) pw_key)
   | _ => false
   end.
 
@@ -184,16 +240,26 @@ Definition last_seg_safe (pat : list pelem) : bool :=
 Fixpoint fixed_dots (pat : list pelem) : nat :=
   match pat with
   | [] => 0
-  | PFix s :: r => count_dots (bytes_of_string s) + fixed_dots r
+  | PFix s :: r => count_dots (lower (bytes_of_string s)) + fixed_dots r
   | _ :: r => fixed_dots r
   end.
+
+(* no instance of the pattern is a password path *)
+Definition exact_ok (pat : list pelem) : bool :=
+  if forallb is_fix pat then negb (is_pw (path_of (lead pat)))
+  else first_seg_safe pat || last_seg_safe pat.
+
+(* no instance of the pattern is a password path or a prefix of one *)
+Definition below_ok (pat : list pelem) : bool :=
+  if forallb is_fix pat then path_below_ok (path_of (lead pat))
+  else first_seg_safe pat || (last_seg_safe pat && Nat.leb 2 (fixed_dots pat)).
 
 Definition row_ok (r : rrow) : bool :=
   let pat := row_pat r in
   match row_kind r with
-  | KExists | KKeys => pat_known pat
-  | KScalar => pat_known pat && last_seg_safe pat
-  | KChildren | KSubtree => pat_known pat && last_seg_safe pat && Nat.leb 2 (fixed_dots pat)
+  | KExists => pat_known pat
+  | KKeys | KScalar => pat_known pat && exact_ok pat
+  | KChildren | KSubtree => pat_known pat && below_ok pat
   | KUnknown => false
   end.
 
